@@ -46,7 +46,7 @@ def other_values(ref, pr, typ, key, cur):
     vals = [pr.to_path_value(key, v) for v in ref.accepted(typ, i, pool) if v not in ("*", ">")]
     if ref.templates[typ][i][1] is None:
         # free text: also characters that mean something in a Sid string (query, uri, or-list, glob)
-        return [v for v in ["other", "my_hero", "what?", "x?%s=y" % key, "x?bogus=1", "x?%s=bogus!" % keys[0], "a:b", "a,b", "ab*", "ab c", ">"] if v != cur]
+        return [v for v in ["other", "my_hero", "what?", "x?%s=y" % key, "x?bogus=1", "x?%s=bogus!" % keys[0], "..", ".", "a:b", "a,b", "ab*", "ab c", ">"] if v != cur]
     # every member of the closed vocabulary, and every path-side spelling the configuration's value mapping knows for the key
     # (a mapping may know more spellings than there are Sid values)
     for pv in pr.mapping.get(key, {}):
